@@ -49,6 +49,9 @@ pub mod unit {
     /*@item radix-common/src/time/instant.rs :: struct Instant
     @derive Clone, Copy, PartialEq, Eq
     @*/
+    /*@item radix-common/src/time/instant.rs :: enum TimeComparisonOperator
+    @derive Clone, Copy, PartialEq, Eq
+    @*/
 
     // ------------------------------------------------------------------------------------------
     // ORACLE, from the property statement (proleptic Gregorian calendar, days-from-civil):
@@ -105,7 +108,16 @@ pub mod unit {
         ensures days_before_year(1) == 0,
                 days_before_year(y + 1) == days_before_year(y) + days_in_year(y),
     {
-        reveal(leap); reveal(leaps_before);
+        assert(days_before_year(1) == 0) by { reveal(leaps_before); }
+        let d4 = y / 4 - (y - 1) / 4; let d100 = y / 100 - (y - 1) / 100; let d400 = y / 400 - (y - 1) / 400;
+        assert(d4 == (if y % 4 == 0 { 1int } else { 0 }));
+        assert(d100 == (if y % 100 == 0 { 1int } else { 0 }));
+        assert(d400 == (if y % 400 == 0 { 1int } else { 0 }));
+        assert(y % 100 == 0 ==> y % 4 == 0);
+        assert(y % 400 == 0 ==> y % 100 == 0);
+        assert(leaps_before(y + 1) - leaps_before(y) == d4 - d100 + d400) by { reveal(leaps_before); }
+        assert(leap(y) <==> d4 - d100 + d400 == 1) by { reveal(leap); }
+        assert(!leap(y) <==> d4 - d100 + d400 == 0) by { reveal(leap); }
     }
     /// facts about the (opaque) leap-year count that the conversion code relies on
     pub proof fn lemma_leaps_facts(y: int)
@@ -141,6 +153,25 @@ pub mod unit {
     }
 
 
+    // ---- oracle for Instant arithmetic / comparison: plain integer arithmetic on the timestamp,
+    //      None exactly when the mathematical result does not fit the i64 representation
+    //      (for a step s > 1, `delta` = n*s overflowing i64 implies the sum overflows as well,
+    //       see lemma_instant_plus_none)
+    pub open spec fn instant_plus(i: Instant, delta: int) -> Option<Instant> {
+        if i64::MIN <= delta <= i64::MAX && i64::MIN <= i.seconds_since_unix_epoch + delta <= i64::MAX {
+            Some(Instant { seconds_since_unix_epoch: (i.seconds_since_unix_epoch + delta) as i64 })
+        } else { None }
+    }
+    pub open spec fn cmp_spec(a: int, b: int, op: TimeComparisonOperator) -> bool {
+        match op {
+            TimeComparisonOperator::Eq => a == b,
+            TimeComparisonOperator::Lt => a < b,
+            TimeComparisonOperator::Lte => a <= b,
+            TimeComparisonOperator::Gt => a > b,
+            TimeComparisonOperator::Gte => a >= b,
+        }
+    }
+
     // ---- lemmas for from_instant (era decomposition relative to 2000-03-01) -----------------
     /// cumulative month lengths of a year that starts on 1 March (Mar, Apr, ..., Jan, Feb)
     pub open spec fn march_prefix(k: int) -> int {
@@ -152,13 +183,17 @@ pub mod unit {
 
     /// 400/100/4/1-year cycle digits (a, b, c, e) of a March-based year yp = 2000+400a+100b+4c+e:
     /// day count to the next 1 January and leap status of the following calendar year
-    pub proof fn lemma_cycle(a: int, b: int, c: int, e: int)
-        requires 0 <= b <= 3, 0 <= c <= 24, 0 <= e <= 3
+    pub proof fn lemma_cycle(yp: int, a: int, b: int, c: int, e: int)
+        requires 0 <= b <= 3, 0 <= c <= 24, 0 <= e <= 3, yp == 2000 + 400 * a + 100 * b + 4 * c + e
         ensures
-            days_before_year(2000 + 400 * a + 100 * b + 4 * c + e + 1) - 730485 == 146097 * a + 36524 * b + 1461 * c + 365 * e,
-            leap(2000 + 400 * a + 100 * b + 4 * c + e + 1) <==> (e == 3 && (c != 24 || b == 3)),
+            days_before_year(yp + 1) - 730485 == 146097 * a + 36524 * b + 1461 * c + 365 * e,
+            leap(yp + 1) <==> (e == 3 && (c != 24 || b == 3)),
     {
-        reveal(leap); reveal(leaps_before);
+        assert(yp / 4 == 500 + 100 * a + 25 * b + c && yp % 4 == e);
+        assert(yp / 100 == 20 + 4 * a + b && yp % 100 == 4 * c + e);
+        assert(yp / 400 == 5 + a && yp % 400 == 100 * b + 4 * c + e);
+        assert(leaps_before(yp + 1) == 485 + 97 * a + 24 * b + c) by { reveal(leaps_before); }
+        assert(leap(yp + 1) <==> (e == 3 && (c != 24 || b == 3))) by { reveal(leap); }
     }
     /// position (k-th month counted from March, rem days into it) inside March-year yp -> civil date
     pub proof fn lemma_march_month(yp: int, k: int, rem: int)
@@ -172,6 +207,11 @@ pub mod unit {
     {
         lemma_days_before_month_table(yp); lemma_days_before_month_table(yp + 1); lemma_days_before_year_rule(yp);
     }
+    pub proof fn lemma_hms(rs: int)
+        requires 0 <= rs < 86400
+        ensures (rs / 3600) * 3600 + (rs / 60 % 60) * 60 + rs % 60 == rs,
+                0 <= rs / 3600 <= 23, 0 <= rs / 60 % 60 <= 59, 0 <= rs % 60 <= 59,
+    {}
     pub proof fn lemma_days_before_year_monotone(y1: int, y2: int)
         requires y1 <= y2
         ensures days_before_year(y2) - days_before_year(y1) >= 365 * (y2 - y1)
@@ -190,6 +230,7 @@ pub mod unit {
         requires 1 <= m <= 12, 1 <= d <= dim(y, m)
         ensures y <= 0 ==> days_from_civil(y, m, d) < -719162,
                 y >= 0x1_0000_0000 ==> days_from_civil(y, m, d) >= 1568703873082,
+                -719162 <= days_from_civil(y, m, d) <= 1568703873081 ==> 1 <= y <= u32::MAX,
     {
         lemma_day_of_year_range(y, m, d);
         lemma_leaps_facts(y);
@@ -222,6 +263,35 @@ pub mod unit {
         @sig
             ensures ret.seconds_since_unix_epoch == seconds_since_unix_epoch
         @*/
+        // trait method `From<UtcDateTime> for Instant :: from`, placed in the inherent impl
+        /*@fn radix-common/src/time/utc_date_time.rs :: impl From<UtcDateTime> for Instant :: fn from
+        @sig
+            requires valid(dt)
+            ensures ret.seconds_since_unix_epoch == secs(dt)
+        @*/
+        /*@fn radix-common/src/time/instant.rs :: impl Instant :: fn compare
+        @sig
+            ensures ret == cmp_spec(self.seconds_since_unix_epoch as int, other.seconds_since_unix_epoch as int, operator)
+        @*/
+        /*@fn radix-common/src/time/instant.rs :: impl Instant :: fn add_days
+        @sig
+            ensures ret == instant_plus(*self, days_to_add * 86400)
+        @closure 1 := |to_add: i64| -> (r: Option<i64>) ensures r == (if i64::MIN <= self.seconds_since_unix_epoch + to_add <= i64::MAX { Some((self.seconds_since_unix_epoch + to_add) as i64) } else { None })
+        @*/
+        /*@fn radix-common/src/time/instant.rs :: impl Instant :: fn add_hours
+        @sig
+            ensures ret == instant_plus(*self, hours_to_add * 3600)
+        @closure 1 := |to_add: i64| -> (r: Option<i64>) ensures r == (if i64::MIN <= self.seconds_since_unix_epoch + to_add <= i64::MAX { Some((self.seconds_since_unix_epoch + to_add) as i64) } else { None })
+        @*/
+        /*@fn radix-common/src/time/instant.rs :: impl Instant :: fn add_minutes
+        @sig
+            ensures ret == instant_plus(*self, minutes_to_add * 60)
+        @closure 1 := |to_add: i64| -> (r: Option<i64>) ensures r == (if i64::MIN <= self.seconds_since_unix_epoch + to_add <= i64::MAX { Some((self.seconds_since_unix_epoch + to_add) as i64) } else { None })
+        @*/
+        /*@fn radix-common/src/time/instant.rs :: impl Instant :: fn add_seconds
+        @sig
+            ensures ret == instant_plus(*self, seconds_to_add as int)
+        @*/
     }
 
     impl UtcDateTime {
@@ -246,6 +316,7 @@ pub mod unit {
                     && dt.hour == hour && dt.minute == minute && dt.second == second,
                 ret matches Err(e) ==> Some(e) == first_error(year as int, month as int, day_of_month as int, hour as int, minute as int, second as int),
         @*/
+        #[verifier::rlimit(60)]
         /*@fn radix-common/src/time/utc_date_time.rs :: impl UtcDateTime :: fn from_instant
         @sig
             ensures
@@ -253,7 +324,7 @@ pub mod unit {
                 ret matches Ok(dt) ==> valid(dt) && secs(dt) == instant.seconds_since_unix_epoch,
                 ret matches Err(e) ==> e == DateTimeError::InstantIsOutOfRange,
         @entry
-            proof { lemma_supported_range(); assert(SECONDS_IN_A_DAY == 86400 && SECONDS_IN_AN_HOUR == 3600 && SECONDS_IN_A_MINUTE == 60); }
+            proof { lemma_supported_range(); lemma_supported_values(); assert(DAYS_PER_4Y == 1461 && DAYS_PER_100Y == 36524 && DAYS_PER_400Y == 146097 && SHIFT_FROM_UNIX_TIME_TO_MARCH_Y2K == 951868800); assert(SECONDS_IN_A_DAY == 86400 && SECONDS_IN_AN_HOUR == 3600 && SECONDS_IN_A_MINUTE == 60); }
         @before <<let mut num_400_year_cycles>> #1
             let ghost dd = days_since_march_y2k as int;
             let ghost rs = remaining_secs as int;
@@ -263,6 +334,7 @@ pub mod unit {
             let ghost a = num_400_year_cycles as int;
             let ghost r400 = remaining_days as int;
             assert(dd == 146097 * a + r400 && 0 <= r400 < 146097);
+            assert(-5 <= a <= 10737413);
         @before <<let mut num_4_year_cycles>> #1
             let ghost b = num_100_year_cycles as int;
             let ghost r100 = remaining_days as int;
@@ -278,8 +350,8 @@ pub mod unit {
         @after <<let mut year>> #1
             let ghost yp = year as int;
             proof {
-                lemma_cycle(a, b, c, e);
                 assert(yp == 2000 + 400 * a + 100 * b + 4 * c + e);
+                lemma_cycle(yp, a, b, c, e);
                 assert(dd == days_before_year(yp + 1) - 730485 + rd0);
                 assert(!leap(yp + 1) ==> rd0 <= 364);
             }
@@ -296,10 +368,12 @@ pub mod unit {
             let ghost rem = remaining_days as int;
             proof {
                 lemma_march_month(yp, k, rem);
-                lemma_year_range(if k >= 10 { yp + 1 } else { yp }, if k >= 10 { k - 9 } else { k + 3 }, rem + 1);
+                lemma_leaps_facts(0);
+                assert(rd0 == march_prefix(k) + rem);
             }
         @before <<Ok(Self>> #1
             assert(days_from_civil(year as int, month as int, day_of_month as int) == dd + 11017);
+            proof { lemma_year_range(year as int, month as int, day_of_month as int); lemma_hms(rs); }
             assert(1 <= year <= u32::MAX);
             assert(hour * 3600 + minute * 60 + second == rs && 0 <= hour <= 23 && 0 <= minute <= 59 && 0 <= second <= 59);
         @*/
@@ -337,6 +411,156 @@ pub mod unit {
                     seconds_in_non_started_months == (days_before_month(self.year as int, 13) - days_before_month(self.year as int, curr_month as int + 2)) * 86400,
                 decreases curr_month
         @*/
+        /*@fn radix-common/src/time/utc_date_time.rs :: impl UtcDateTime :: fn year
+        @sig
+            ensures ret == self.year
+        @*/
+        /*@fn radix-common/src/time/utc_date_time.rs :: impl UtcDateTime :: fn month
+        @sig
+            ensures ret == self.month
+        @*/
+        /*@fn radix-common/src/time/utc_date_time.rs :: impl UtcDateTime :: fn day_of_month
+        @sig
+            ensures ret == self.day_of_month
+        @*/
+        /*@fn radix-common/src/time/utc_date_time.rs :: impl UtcDateTime :: fn hour
+        @sig
+            ensures ret == self.hour
+        @*/
+        /*@fn radix-common/src/time/utc_date_time.rs :: impl UtcDateTime :: fn minute
+        @sig
+            ensures ret == self.minute
+        @*/
+        /*@fn radix-common/src/time/utc_date_time.rs :: impl UtcDateTime :: fn second
+        @sig
+            ensures ret == self.second
+        @*/
+        /*@fn radix-common/src/time/utc_date_time.rs :: impl UtcDateTime :: fn add_days
+        @sig
+            requires valid(*self)
+            ensures date_time_plus(*self, days_to_add * 86400, ret)
+        @entry
+            proof { lemma_secs_range(*self); lemma_supported_values(); }
+        @closure 1 := |i: Instant| -> (r: Option<UtcDateTime>) ensures (r is Some <==> min_supported() <= i.seconds_since_unix_epoch <= max_supported()), (r matches Some(d) ==> valid(d) && secs(d) == i.seconds_since_unix_epoch)
+        @*/
+        /*@fn radix-common/src/time/utc_date_time.rs :: impl UtcDateTime :: fn add_hours
+        @sig
+            requires valid(*self)
+            ensures date_time_plus(*self, hours_to_add * 3600, ret)
+        @entry
+            proof { lemma_secs_range(*self); lemma_supported_values(); }
+        @closure 1 := |i: Instant| -> (r: Option<UtcDateTime>) ensures (r is Some <==> min_supported() <= i.seconds_since_unix_epoch <= max_supported()), (r matches Some(d) ==> valid(d) && secs(d) == i.seconds_since_unix_epoch)
+        @*/
+        /*@fn radix-common/src/time/utc_date_time.rs :: impl UtcDateTime :: fn add_minutes
+        @sig
+            requires valid(*self)
+            ensures date_time_plus(*self, minutes_to_add * 60, ret)
+        @entry
+            proof { lemma_secs_range(*self); lemma_supported_values(); }
+        @closure 1 := |i: Instant| -> (r: Option<UtcDateTime>) ensures (r is Some <==> min_supported() <= i.seconds_since_unix_epoch <= max_supported()), (r matches Some(d) ==> valid(d) && secs(d) == i.seconds_since_unix_epoch)
+        @*/
+        /*@fn radix-common/src/time/utc_date_time.rs :: impl UtcDateTime :: fn add_seconds
+        @sig
+            requires valid(*self)
+            ensures date_time_plus(*self, seconds_to_add * 1, ret)
+        @entry
+            proof { lemma_secs_range(*self); lemma_supported_values(); }
+        @closure 1 := |i: Instant| -> (r: Option<UtcDateTime>) ensures (r is Some <==> min_supported() <= i.seconds_since_unix_epoch <= max_supported()), (r matches Some(d) ==> valid(d) && secs(d) == i.seconds_since_unix_epoch)
+        @*/
+    }
+
+    // ---- corollaries of the contracts (property: invertible, strictly increasing) ------------
+    /// lexicographic order on (year, month, day, hour, minute, second) -- the calendar order
+    pub open spec fn lex_lt(a: UtcDateTime, b: UtcDateTime) -> bool {
+        a.year < b.year || (a.year == b.year && (a.month < b.month || (a.month == b.month && (
+        a.day_of_month < b.day_of_month || (a.day_of_month == b.day_of_month && (
+        a.hour < b.hour || (a.hour == b.hour && (a.minute < b.minute || (a.minute == b.minute && a.second < b.second)))))))))
+    }
+    pub proof fn lemma_days_before_month_monotone(y: int, m1: int, m2: int)
+        requires 1 <= m1 <= m2 <= 13
+        ensures days_before_month(y, m1) <= days_before_month(y, m2)
+        decreases m2 - m1
+    {
+        if m1 < m2 { lemma_days_before_month_monotone(y, m1, m2 - 1); }
+    }
+    /// every valid date-time maps into the supported timestamp range
+    pub proof fn lemma_secs_range(dt: UtcDateTime)
+        requires valid(dt)
+        ensures min_supported() <= secs(dt) <= max_supported()
+    {
+        let y = dt.year as int;
+        lemma_supported_values();
+        lemma_leaps_facts(y);
+        lemma_day_of_year_range(y, dt.month as int, dt.day_of_month as int);
+        lemma_days_before_year_rule(y);
+        lemma_days_before_year_monotone(1, y);
+        lemma_days_before_year_monotone(y + 1, 0x1_0000_0000);
+        assert(days_before_year(0x1_0000_0000) == 1568704592244) by { reveal(leaps_before); }
+    }
+    /// the conversion to timestamps is strictly increasing in calendar order
+    pub proof fn lemma_secs_strictly_increasing(a: UtcDateTime, b: UtcDateTime)
+        requires valid(a), valid(b), lex_lt(a, b)
+        ensures secs(a) < secs(b)
+    {
+        let ya = a.year as int; let yb = b.year as int;
+        let da = days_from_civil(ya, a.month as int, a.day_of_month as int);
+        let db = days_from_civil(yb, b.month as int, b.day_of_month as int);
+        lemma_day_of_year_range(ya, a.month as int, a.day_of_month as int);
+        lemma_day_of_year_range(yb, b.month as int, b.day_of_month as int);
+        if ya < yb {
+            lemma_days_before_year_rule(ya);
+            lemma_days_before_year_monotone(ya + 1, yb);
+            assert(da < db);
+        } else if a.month < b.month {
+            lemma_days_before_month_monotone(ya, a.month as int + 1, b.month as int);
+            assert(da < db);
+        } else if a.day_of_month < b.day_of_month {
+            assert(da < db);
+        } else {
+            assert(da == db);
+        }
+    }
+    /// ... hence injective on valid date-times (two valid date-times with the same timestamp are equal)
+    pub proof fn lemma_secs_injective(a: UtcDateTime, b: UtcDateTime)
+        requires valid(a), valid(b), secs(a) == secs(b)
+        ensures a == b
+    {
+        if lex_lt(a, b) { lemma_secs_strictly_increasing(a, b); }
+        if lex_lt(b, a) { lemma_secs_strictly_increasing(b, a); }
+    }
+    /// ... and the inverse conversion is strictly increasing as well
+    pub proof fn lemma_inverse_strictly_increasing(a: UtcDateTime, b: UtcDateTime)
+        requires valid(a), valid(b), secs(a) < secs(b)
+        ensures lex_lt(a, b)
+    {
+        if lex_lt(b, a) { lemma_secs_strictly_increasing(b, a); }
+    }
+    /// oracle for date-time arithmetic: the result is the (unique, by lemma_secs_injective) valid
+    /// date-time whose timestamp is `secs(dt) + delta`; None exactly when that leaves the supported range
+    pub open spec fn date_time_plus(dt: UtcDateTime, delta: int, ret: Option<UtcDateTime>) -> bool {
+        &&& ret is Some <==> min_supported() <= secs(dt) + delta <= max_supported()
+        &&& ret matches Some(r) ==> valid(r) && secs(r) == secs(dt) + delta
+    }
+
+    /// round trip Instant -> UtcDateTime -> Instant (composition of the two real functions)
+    pub fn round_trip_instant(i: &Instant) -> (r: Option<Instant>)
+        ensures r == (if min_supported() <= i.seconds_since_unix_epoch <= max_supported() { Some(*i) } else { None })
+    {
+        match UtcDateTime::from_instant(i) {
+            Ok(dt) => Some(dt.to_instant()),
+            Err(_) => None,
+        }
+    }
+    /// round trip UtcDateTime -> Instant -> UtcDateTime
+    pub fn round_trip_date_time(dt: &UtcDateTime) -> (r: Result<UtcDateTime, DateTimeError>)
+        requires valid(*dt)
+        ensures r == Ok::<UtcDateTime, DateTimeError>(*dt)
+    {
+        let i = dt.to_instant();
+        proof { lemma_secs_range(*dt); }
+        let r = UtcDateTime::from_instant(&i);
+        proof { lemma_secs_injective(r->Ok_0, *dt); }
+        r
     }
 }
 } // verus!
